@@ -35,6 +35,13 @@ class Gen:
             c["counters"] = r.choice([8, 16, 64])
             c["buffer"] = r.choice([1, 2])
             c["pool"] = 1
+        if profile == "evict2":
+            c["max"] = r.choice([6, 8, 10])
+            c["counters"] = r.choice([64, 64, 16])
+            c["buffer"] = 1
+            c["pool"] = 1
+            c["hash"] = r.choice([0, 3, 3])
+            c["queue"] = 8
         if profile == "boundary":
             c["max"] = r.choice([1, 2, 100, (1 << 62), (1 << 63) - 1])
             c["counters"] = r.choice([1, 1, 2, 3])
@@ -111,7 +118,83 @@ class Gen:
             return "call %d multi_iter %s" % (tid, kstr)
         return "call %d multi_map_iter %s" % (tid, kstr)
 
+    def schedule_evict2(self, name):
+        """many light resident keys with a read-built frequency profile, then heavy puts that need several victims"""
+        r = self.rng
+        cfg = self.cfg("evict2")
+        nres = r.randint(6, cfg["max"])
+        evs = []
+        keys = list(range(1, nres + 1))
+        for k in keys:
+            evs.append("call 0 put_w %d %d 1" % (k, self.tok()))
+            evs.append("worker")
+        # frequency profile: some keys hot, some cold; every read is handed over and applied at once (buffer 1)
+        hot = r.sample(keys, r.randint(2, max(2, nres // 2)))
+        for _ in range(r.randint(10, 40)):
+            k = r.choice(hot) if r.random() < 0.8 else r.choice(keys)
+            evs.append("call %d get %d" % (r.randint(0, 2), k))
+            if r.random() < 0.7:
+                evs.append("drain")
+        for _ in range(6):
+            evs.append("drain")
+        # an incoming key of middling frequency: put, read a few times, delete, put again heavy
+        inc = nres + 1
+        if r.random() < 0.7:
+            evs += ["call 0 put_w %d %d 1" % (inc, self.tok()), "worker"]
+            for _ in range(r.randint(0, 6)):
+                evs += ["call 1 get %d" % inc, "drain"]
+            evs += ["call 0 delete %d" % inc, "worker", "worker"]
+        for _ in range(r.randint(1, 3)):
+            w = r.choice([2, 3, cfg["max"] // 2, cfg["max"] - 1, cfg["max"]])
+            evs += ["call 0 put_w %d %d %d" % (inc, self.tok(), w), "worker", "call 0 stats"]
+            inc += 1
+        evs += ["call 0 multi_get %s" % ",".join(str(k) for k in keys), "call 0 weight_used"]
+        return dict(name=name, cfg=cfg, events=evs, profile="evict2")
+
+    def schedule_ttlchain(self, name):
+        """chains of TTL changes on one or two keys (add, shorten, extend, remove, re-add), every command awaited, then the
+        clock walks second by second past every expiry ever set with a sweep at each step and reads in between"""
+        r = self.rng
+        cfg = self.cfg("roomy")
+        cfg["shards"] = r.choice([2, 4, 4])
+        evs = []
+        keys = [1, 2][: r.randint(1, 2)]
+        horizon = 0
+        for k in keys:
+            t = r.choice([2, 3, 5, 9, 12, 40])
+            horizon = max(horizon, t)
+            if r.random() < 0.8:
+                evs += ["call 0 put_w_ttl %d %d 30 %d" % (k, self.tok(), t * SEC), "worker"]
+            else:
+                evs += ["call 0 put_w %d %d 30" % (k, self.tok()), "worker"]
+        for _ in range(r.randint(1, 5)):
+            k = r.choice(keys)
+            kind = r.random()
+            if kind < 0.55:
+                t = r.choice([1, 2, 3, 4, 6, 7, 10, 25, 41, 60])
+                horizon = max(horizon, t)
+                evs.append("call 0 upsert %d %s - %d 0" % (k, str(self.tok()) if r.random() < 0.3 else "-", t * SEC))
+            elif kind < 0.8:
+                evs.append("call 0 upsert %d - - - 1" % k)
+            elif kind < 0.9:
+                evs.append("call 0 upsert %d %d - - 0" % (k, self.tok()))
+            else:
+                evs += ["call 0 delete %d" % k, "worker", "call 0 put_w_ttl %d %d 30 %d" % (k, self.tok(), r.choice([2, 5, 9]) * SEC)]
+            evs.append("worker")
+            if r.random() < 0.3:
+                evs += ["advance %d" % r.choice([SEC, SEC // 2, 2 * SEC]), "sweep"]
+        for step in range(min(70, horizon + 2 * cfg["shards"] + 3)):
+            evs += ["advance %d" % SEC, "sweep"]
+            if r.random() < 0.4:
+                evs.append("call 1 get %d" % r.choice(keys))
+        evs += ["call 0 get %d" % k for k in keys] + ["call 0 stats", "call 0 weight_used"]
+        return dict(name=name, cfg=cfg, events=evs, profile="ttlchain")
+
     def schedule(self, name, profile="general", length=None):
+        if profile == "evict2":
+            return self.schedule_evict2(name)
+        if profile == "ttlchain":
+            return self.schedule_ttlchain(name)
         r = self.rng
         cfg = self.cfg(profile)
         nkeys = r.randint(2, 6)
